@@ -480,22 +480,27 @@ fn e2_case(t: &mut Tape, feature_unimock: bool) -> (String, String) {
     let mut src = String::from("#![allow(warnings)]\nuse crate::rt;\npub struct App;\n");
     let mut run = String::from("pub fn run() -> Vec<String> {\n    let mut fails = vec![];\n    let app = ::entrait::Impl::new(App);\n");
     let mut summary = String::new();
-    let fn_src = |name: &str, on: bool, is_async: bool, vis: &str, attr: &str, deps: &str| {
+    // (`inner`: the `cfg` is written at the top of the body, `{ #![cfg(..)] .. }`, which gates the fn just the same)
+    let fn_src = |name: &str, on: bool, is_async: bool, vis: &str, attr: &str, deps: &str, inner: bool| {
         let q = if is_async { "async " } else { "" };
+        let inner = inner && !attr.contains("inline") && !attr.contains("doc");
+        let (outer, top) = if inner { (String::new(), format!("{} ", attr.replace("#[", "#![")) ) } else { (attr.to_string(), String::new()) };
         if on {
-            format!("    {attr} {vis}{q}fn {name}({deps}x: u64) -> u64 {{ x + 1 }}\n")
+            format!("    {outer} {vis}{q}fn {name}({deps}x: u64) -> u64 {{ {top}x + 1 }}\n")
         } else {
-            format!("    {attr} {vis}{q}fn {name}({deps}x: NoSuchType) -> NoSuchType {{ no_such_fn(x) }}\n")
+            format!("    {outer} {vis}{q}fn {name}({deps}x: NoSuchType) -> NoSuchType {{ {top}no_such_fn(x) }}\n")
         }
     };
+    let inner_cfgs: Vec<bool> = (0..n).map(|_| t.chance(1, 3)).collect();
+    let any_inner = mode < 3 && inner_cfgs.iter().any(|b| *b);
     let call = |name: &str, is_async: bool| if is_async { format!("rt::block_on(TheTrait::{name}(&app, 1))") } else { format!("TheTrait::{name}(&app, 1)") };
     match mode {
         0 => {
             let attr = if mocks { "#[::entrait::entrait_export(pub TheTrait, mock_api = TheMock)]" } else { "#[::entrait::entrait(pub TheTrait)]" };
             src.push_str(&format!("{attr}\npub mod m {{\n"));
-            for (name, on, a) in &members {
+            for (k, (name, on, a)) in members.iter().enumerate() {
                 let c = if *on { cfg_on(t) } else { cfg_off(t) };
-                src.push_str(&fn_src(name, *on, *a, "pub ", c, "_deps: &impl ::core::any::Any, "));
+                src.push_str(&fn_src(name, *on, *a, "pub ", c, "_deps: &impl ::core::any::Any, ", inner_cfgs[k]));
             }
             src.push_str("}\n");
             summary = format!("{attr} mod with members {:?}", members);
@@ -518,8 +523,8 @@ fn e2_case(t: &mut Tape, feature_unimock: bool) -> (String, String) {
                 src.push_str(&format!("    {c} {q}fn {name}(&self, x: {ty}) -> {ty};\n"));
             }
             src.push_str(&format!("}}\npub struct X;\n#[::entrait::entrait{}]\nimpl TheImpl for X {{\n", if dynamic { "(ref)" } else { "" }));
-            for ((name, on, a), c) in members.iter().zip(cfgs.iter()) {
-                src.push_str(&fn_src(name, *on, *a, "pub ", c, "_deps: &impl ::core::any::Any, "));
+            for (k, ((name, on, a), c)) in members.iter().zip(cfgs.iter()).enumerate() {
+                src.push_str(&fn_src(name, *on, *a, "pub ", c, "_deps: &impl ::core::any::Any, ", inner_cfgs[k]));
             }
             src.push_str("}\n");
             if dynamic {
@@ -540,7 +545,7 @@ fn e2_case(t: &mut Tape, feature_unimock: bool) -> (String, String) {
             }
             src.push_str("}\nimpl TheTrait for App {\n");
             for ((name, on, a), c) in members.iter().zip(cfgs.iter()) {
-                src.push_str(&fn_src(name, *on, *a, "", c, "&self, "));
+                src.push_str(&fn_src(name, *on, *a, "", c, "&self, ", false));
             }
             src.push_str("}\n");
             summary = format!("{attr} trait with methods {:?}", members);
@@ -553,6 +558,9 @@ fn e2_case(t: &mut Tape, feature_unimock: bool) -> (String, String) {
     }
     run.push_str("    fails\n}\n");
     src.push_str(&run);
+    if any_inner {
+        summary.push_str(" [some `cfg`s written as inner attributes of the fn bodies]");
+    }
     (src, summary)
 }
 
@@ -590,6 +598,9 @@ pub fn e2_leg(ctx: &mut Ctx) -> bool {
                 return false;
             }
             ctx.class("e2:cfg_disabled_members_compiled_and_run");
+            if cases[i].1.contains("inner attributes") {
+                ctx.class("e2:cfg_written_as_an_inner_attribute_of_the_fn_body");
+            }
         }
     }
     true
